@@ -249,93 +249,7 @@ func c08b(c *core.Ctx, oe *orderEngine) {
 			c.Check("emptyFile:Offset=0-after-Remove", "order", reset, rm.Pos(), "after the file was recreated the append cursor restarts at 0")
 		}
 	})
-	c.Run("pending-index", func() {
-		index := c.FieldVar(st+".FileQueue", "Index")
-		refCnt := c.FieldVar(st+".item", "refCnt")
-		delIndex := c.Fn(st + ".FileQueue.delIndex")
-		// deletes from Index: only in delIndex, only for refCnt <= 1
-		n := 0
-		for _, fn := range c.SrcFuncs {
-			if core.RelPkg(fn) != st {
-				continue
-			}
-			for _, d := range builtinCalls(fn, "delete") {
-				if !core.SliceHasField(core.Slice(d.Call.Args[0]), index) {
-					continue
-				}
-				n++
-				c.Check("delete(Index)@"+shortFn(fn), "who-may-call", fn == delIndex, d.Pos(), "entries leave the pending index only in FileQueue.delIndex")
-				if fn != delIndex {
-					continue
-				}
-				ok := false
-				for _, ifi := range ifs(fn) {
-					if edge, k := edgeWhen(ifi, isLoadOfField(refCnt), []int64{1}, []int64{2, 3, 4}); k && onlyVia(ifi, edge, d) {
-						ok = true
-					}
-				}
-				c.Check("delIndex:delete-only-if-refCnt<=1", "guarded-action", ok, d.Pos(), "an entry with further pending writes of the same key (refCnt > 1) stays in the index")
-			}
-		}
-		c.Exactly("pending-index/delete(Index)", n, 1)
-		// setIndex counts a second pending write of the same key
-		set := c.Fn(st + ".FileQueue.setIndex")
-		ok := false
-		for _, s := range storesToO8(set, refCnt) {
-			sl := core.Slice(s.Val)
-			if core.SliceHasField(sl, refCnt) && core.SliceHasOp(sl, token.ADD) && core.SliceHasIntConst(sl, 1) && core.SliceHasField(sl, index) {
-				ok = true
-			}
-		}
-		c.Check("setIndex:refCnt=old+1", "value-flow", ok, set.Pos(), "a write to a key that is already pending increments the entry's count taken from the index")
-		// who triggers delIndex
-		closedCallersOwned(c, "FileQueue.delIndex", []string{"(*store.FileQueue).afterPut"}, c.Method(st+".FileQueue", "delIndex"))
-		sites := closedCallersOwned(c, "FileQueue.afterPut", []string{"(*store.FileQueue).start"}, c.Method(st+".FileQueue", "afterPut"))
-		c.Floor("pending-index/afterPut-sites", len(sites), 1)
-		done := c.FieldVar(st+".FileQueue", "DoneChan")
-		for _, s := range sites {
-			a := argN(s.Instr, 0)
-			if core.FuncName(core.Outer(s.Caller)) != "(*store.FileQueue).start" {
-				continue
-			}
-			c.Check("afterPut(<-DoneChan)@"+shortFn(core.Outer(s.Caller)), "value-flow", a != nil && recvFromField(a, done), s.Instr.Pos(), "afterPut is given a record received from DoneChan")
-		}
-		// who sends on a channel of write operations
-		inject := c.Named(st + ".Inject")
-		senders := map[string]bool{}
-		for _, fn := range c.SrcFuncs {
-			for _, b := range fn.Blocks {
-				for _, in := range b.Instrs {
-					sd, isSend := in.(*ssa.Send)
-					if !isSend {
-						continue
-					}
-					ch, isCh := sd.Chan.Type().Underlying().(*types.Chan)
-					if !isCh {
-						continue
-					}
-					if p, isP := ch.Elem().(*types.Pointer); isP && types.Identical(p.Elem(), inject) {
-						senders[core.FuncName(core.Outer(fn))] = true
-					}
-				}
-			}
-		}
-		for name := range senders {
-			c.Check("send(chan *Inject)@"+name, "who-may-call", name == "(*store.SyncFileDB).start", token.NoPos, "only the asynchronous writer reports records as done/failed")
-		}
-		c.Floor("pending-index/senders", len(senders), 1)
-		// the channel the writer reports on is the queue's DoneChan
-		nfq := c.Fn(st + ".NewFileQueue")
-		ok = false
-		for _, ci := range core.CallsIn(nfq, c.FuncObj(st+".NewSyncFileDB")) {
-			for _, s := range storesToAnyIn(nfq, done) {
-				if argN(ci, 2) != nil && core.Derived(s.Val)[argN(ci, 2)] || s.Val == argN(ci, 2) {
-					ok = true
-				}
-			}
-		}
-		c.Check("NewFileQueue:SyncFileDB.DoneChan=FileQueue.DoneChan", "value-flow", ok, nfq.Pos(), "the writer's done channel is the channel the queue's index maintenance listens on")
-	})
+	c.Run("pending-index", func() { c08PendingIndex(c) })
 
 	// -----------------------------------------------------------------------------------------------------------------
 	c.Clause("C08.5", "recovery replays before anyone reads: FileQueue.Start opens the bitcask writer, then scans tmp.data (failure is fatal); scanFile re-delivers every intact record it read and treats a torn tail as the end of the log; NewChainDataBase starts BeansDB before it reads the stable block")
@@ -432,6 +346,36 @@ func c08b(c *core.Ctx, oe *orderEngine) {
 				}
 			}
 			c.Check("scanFile:ErrRecordBroken⇒end-of-log", "sentinel-accepted", okTail, rd[0].Pos(), "a torn last record (ErrRecordBroken) ends the scan with the end-of-log marker instead of failing start-up, and is not delivered")
+			// where the log continues: the offset an accepted scan returns is the scan cursor (the end of the last whole record), so that the
+			// next append overwrites a torn tail; the file size would put acknowledged records behind garbage that ends the next scan
+			okCur, nAcc := true, 0
+			for _, ret := range core.Returns(scanFn) {
+				if ret.Block() == scanFn.Recover {
+					continue
+				}
+				ev := core.RetVal(ret, 1)
+				accepted := core.IsNilConst(ev)
+				if ld, isLd := ev.(*ssa.UnOp); isLd && ld.Op == token.MUL {
+					if g, isG := ld.X.(*ssa.Global); isG && g.Object() == errEOF {
+						accepted = true
+					}
+				}
+				if !accepted {
+					continue
+				}
+				nAcc++
+				sl := core.Slice(core.RetVal(ret, 0))
+				fromCursor := core.SliceHasField(sl, offset)
+				for v := range sl {
+					if ci, ok := v.(ssa.CallInstruction); ok && ci.Common().IsInvoke() && ci.Common().Method.Name() == "Size" {
+						fromCursor = false
+					}
+				}
+				if !fromCursor {
+					okCur = false
+				}
+			}
+			c.Check("scanFile:accepted-scan-returns-the-cursor", "value-flow", okCur && nAcc > 0, scanFn.Pos(), "every return of scanFile that checkFile accepts (nil / end-of-log) hands back the scan cursor, not a quantity taken from the file's size (%d accepted return(s))", nAcc)
 		}
 
 		nc := c.Fn(st + ".NewChainDataBase")
@@ -499,7 +443,7 @@ func c08b(c *core.Ctx, oe *orderEngine) {
 		fns := reachFrom(c, roots, nil, map[string]bool{st: true, ldb: true})
 		// reasons for the confirmed exceptions, keyed caller→callee
 		exempt := map[string]string{
-			"(*store.BitCask).Put→FileUtilsEncode":         "the encoder's error is overwritten by the next assignment; the encoding of two byte slices (RecordBody{Key,Val}) and of a fixed-size head into a buffer of exactly that size cannot fail",
+			"(*store.BitCask).Put→FileUtilsEncode":             "the encoder's error is overwritten by the next assignment; the encoding of two byte slices (RecordBody{Key,Val}) and of a fixed-size head into a buffer of exactly that size cannot fail",
 			"(*store.FileQueue).emptyFile→FileUtilsCreateFile": "if tmp.data cannot be recreated the very next statement of Put/PutBatch (FileUtilsFlush opens without O_CREATE) fails and the error is returned: loud, nothing acknowledged",
 		}
 		type hit struct {
@@ -807,4 +751,137 @@ func errUsed(ci ssa.CallInstruction) bool {
 // storesToAnyIn lists the stores in fn (composite literals included) to field f.
 func storesToAnyIn(fn *ssa.Function, f *types.Var) []*ssa.Store {
 	return storesToO8(fn, f)
+}
+
+// c08PendingIndex: the rules on FileQueue.Index, the index of acknowledged writes the asynchronous writer has not persisted yet (readers
+// consult it before the data file). Evaluated under C08 (durability) and C09 (the persisted account equals the stable view).
+func c08PendingIndex(c *core.Ctx) {
+	const st = "store"
+	offset := c.FieldVar(st+".FileQueue", "Offset")
+	_ = offset
+	index := c.FieldVar(st+".FileQueue", "Index")
+	refCnt := c.FieldVar(st+".item", "refCnt")
+	delIndex := c.Fn(st + ".FileQueue.delIndex")
+	// deletes from Index: only in delIndex, only for refCnt <= 1
+	n := 0
+	for _, fn := range c.SrcFuncs {
+		if core.RelPkg(fn) != st {
+			continue
+		}
+		for _, d := range builtinCalls(fn, "delete") {
+			if !core.SliceHasField(core.Slice(d.Call.Args[0]), index) {
+				continue
+			}
+			n++
+			c.Check("delete(Index)@"+shortFn(fn), "who-may-call", fn == delIndex, d.Pos(), "entries leave the pending index only in FileQueue.delIndex")
+			if fn != delIndex {
+				continue
+			}
+			ok := false
+			for _, ifi := range ifs(fn) {
+				if edge, k := edgeWhen(ifi, isLoadOfField(refCnt), []int64{1}, []int64{2, 3, 4}); k && onlyVia(ifi, edge, d) {
+					ok = true
+				}
+			}
+			c.Check("delIndex:delete-only-if-refCnt<=1", "guarded-action", ok, d.Pos(), "an entry with further pending writes of the same key (refCnt > 1) stays in the index")
+		}
+	}
+	c.Exactly("pending-index/delete(Index)", n, 1)
+	// setIndex counts a second pending write of the same key
+	set := c.Fn(st + ".FileQueue.setIndex")
+	ok := false
+	for _, s := range storesToO8(set, refCnt) {
+		sl := core.Slice(s.Val)
+		if core.SliceHasField(sl, refCnt) && core.SliceHasOp(sl, token.ADD) && core.SliceHasIntConst(sl, 1) && core.SliceHasField(sl, index) {
+			ok = true
+		}
+	}
+	c.Check("setIndex:refCnt=old+1", "value-flow", ok, set.Pos(), "a write to a key that is already pending increments the entry's count taken from the index")
+	// ... and nobody puts an entry into the index without counting: every function that inserts into Index stores a refCnt computed
+	// from the entry it replaces (old+1). An insert that starts again at 1 lets the first Done of that key remove the entry of a newer,
+	// still pending write: readers then fall back to the data file and see the older value.
+	nIns := 0
+	for _, fn := range c.SrcFuncs {
+		if core.RelPkg(fn) != st || isTestHelper(c, fn) {
+			continue
+		}
+		ins := false
+		var pos token.Pos
+		for _, bb := range fn.Blocks {
+			for _, in := range bb.Instrs {
+				if mu, isMu := in.(*ssa.MapUpdate); isMu && core.SliceHasField(core.Slice(mu.Map), index) {
+					// putting back the entry that was just looked up (delIndex after decrementing) is maintenance, not an insert
+					back := false
+					for v := range core.Slice(mu.Value) {
+						if lk, isLk := v.(*ssa.Lookup); isLk && core.SliceHasField(core.Slice(lk.X), index) {
+							back = true
+						}
+					}
+					if !back {
+						ins, pos = true, mu.Pos()
+					}
+				}
+			}
+		}
+		if !ins {
+			continue
+		}
+		nIns++
+		counted := false
+		for _, s := range storesToO8(fn, refCnt) {
+			sl := core.Slice(s.Val)
+			if core.SliceHasField(sl, refCnt) && core.SliceHasOp(sl, token.ADD) && core.SliceHasIntConst(sl, 1) && core.SliceHasField(sl, index) {
+				counted = true
+			}
+		}
+		c.Check("insert(Index)@"+shortFn(fn)+":counts-pending-writes", "value-flow", counted, pos, "%s inserts into the pending index; the entry's refCnt must be the replaced entry's count + 1", shortFn(fn))
+	}
+	c.Floor("pending-index/insert(Index)", nIns, 1)
+	// who triggers delIndex
+	closedCallersOwned(c, "FileQueue.delIndex", []string{"(*store.FileQueue).afterPut"}, c.Method(st+".FileQueue", "delIndex"))
+	sites := closedCallersOwned(c, "FileQueue.afterPut", []string{"(*store.FileQueue).start"}, c.Method(st+".FileQueue", "afterPut"))
+	c.Floor("pending-index/afterPut-sites", len(sites), 1)
+	done := c.FieldVar(st+".FileQueue", "DoneChan")
+	for _, s := range sites {
+		a := argN(s.Instr, 0)
+		if core.FuncName(core.Outer(s.Caller)) != "(*store.FileQueue).start" {
+			continue
+		}
+		c.Check("afterPut(<-DoneChan)@"+shortFn(core.Outer(s.Caller)), "value-flow", a != nil && recvFromField(a, done), s.Instr.Pos(), "afterPut is given a record received from DoneChan")
+	}
+	// who sends on a channel of write operations
+	inject := c.Named(st + ".Inject")
+	senders := map[string]bool{}
+	for _, fn := range c.SrcFuncs {
+		for _, b := range fn.Blocks {
+			for _, in := range b.Instrs {
+				sd, isSend := in.(*ssa.Send)
+				if !isSend {
+					continue
+				}
+				ch, isCh := sd.Chan.Type().Underlying().(*types.Chan)
+				if !isCh {
+					continue
+				}
+				if p, isP := ch.Elem().(*types.Pointer); isP && types.Identical(p.Elem(), inject) {
+					senders[core.FuncName(core.Outer(fn))] = true
+				}
+			}
+		}
+	}
+	for name := range senders {
+		c.Check("send(chan *Inject)@"+name, "who-may-call", name == "(*store.SyncFileDB).start", token.NoPos, "only the asynchronous writer reports records as done/failed")
+	}
+	c.Floor("pending-index/senders", len(senders), 1)
+	// the channel the writer reports on is the queue's DoneChan
+	nfq := c.Fn(st + ".NewFileQueue")
+	ok = false
+	for _, ci := range core.CallsIn(nfq, c.FuncObj(st+".NewSyncFileDB")) {
+		for _, s := range storesToAnyIn(nfq, done) {
+			if argN(ci, 2) != nil && core.Derived(s.Val)[argN(ci, 2)] || s.Val == argN(ci, 2) {
+				ok = true
+			}
+		}
+	}
+	c.Check("NewFileQueue:SyncFileDB.DoneChan=FileQueue.DoneChan", "value-flow", ok, nfq.Pos(), "the writer's done channel is the channel the queue's index maintenance listens on")
 }
